@@ -397,7 +397,7 @@ func (w *World) callSSA(caller *frame, callpos token.Pos, fn *ssa.Function, args
 		name := fnExternName(fn)
 		if ext := externals[name]; ext != nil {
 			r := ext(fr, args)
-			if _, real := r.(useRealCode); !real { // an external may decline (extern_html.go)
+			if _, real := r.(useRealCode); !real && r != extDecline { // an external may decline (extern_html.go, extern_textid.go)
 				return r
 			}
 		}
